@@ -92,6 +92,10 @@ def pool(rng):
          # a relative seek (terminator left in place) inside length-limited regions: the same values at every starting offset
          A.FixedSized(6, A.Sequence(A.NullTerminated(A.GreedyBytes, consume=False), A.GreedyBytes)),
          A.Struct(A.Renamed("n", A.Alias("Byte")), A.Renamed("p", A.Prefixed(A.Alias("Byte"), A.Sequence(A.NullTerminated(A.GreedyBytes, consume=False), A.Alias("Byte")))))]
+    # bit-level regions of data-dependent length (the streaming wrapper): a call may fail in the middle of a byte, the next one starts clean
+    P += [A.Bitwise(A.Struct(A.Renamed("n", A.Alias("Nibble")), A.Renamed("v", A.BitsInteger(A.T("n"))))),
+          A.Bitwise(A.Struct(A.Renamed("n", A.Alias("Nibble")), A.Check(A.Bin("<", A.T("n"), A.C(9))), A.Renamed("a", A.Array(A.T("n"), A.Alias("Bit"))), A.Renamed("p", A.Padding(A.Bin("%", A.Bin("-", A.C(12), A.T("n")), A.C(8)))))),
+          A.Struct(A.Renamed("h", A.Alias("Byte")), A.Renamed("b", A.Bitwise(A.Struct(A.Renamed("n", A.BitsInteger(3)), A.Renamed("r", A.Array(A.T("n"), A.BitsInteger(3)))))), A.Renamed("t", A.GreedyBytes))]
     for _ in range(4):
         P.append(gen.program(rng, 2, {"k": 2}))
     return P
@@ -215,6 +219,26 @@ def run(ctx):
                 i2, _ = camp.build(pp, pc, bad, b"", {})
                 i3, _ = camp.build(pp, pc, good, b"", {})
                 camp.sh.session("C17.pure", [i1, i3])
+            # ---- bit-level regions of data-dependent length: a call that fails inside a byte, between two identical good ones (parse and build)
+            NN = A.T("n")
+            for bp, goodd, badd, goodv, badv in (
+                    (A.Bitwise(A.Struct(A.Renamed("n", A.Alias("Nibble")), A.Renamed("v", A.BitsInteger(NN)))), b"\x4a", b"\x30", {"n": 4, "v": 9}, {"n": 3, "v": 5}),
+                    (A.Bitwise(A.Struct(A.Renamed("n", A.Alias("Nibble")), A.Check(A.Bin("<", NN, A.C(9))), A.Renamed("v", A.BitsInteger(4)))), b"\x4a", b"\xfa", {"n": 4, "v": 9}, {"n": 12, "v": 1}),
+                    (A.Struct(A.Renamed("h", A.Alias("Byte")), A.Renamed("b", A.Bitwise(A.Struct(A.Renamed("n", A.BitsInteger(2)), A.Renamed("r", A.Array(NN, A.BitsInteger(3)))))), A.Renamed("t", A.Alias("Byte"))),
+                     b"\x01\x91\x07", b"\x01\xff\xff\x07", {"h": 1, "b": {"n": 2, "r": [1, 1]}, "t": 7}, {"h": 1, "b": {"n": 1, "r": [1]}, "t": 7}),
+                    (A.Bitwise(A.Struct(A.Renamed("a", A.Alias("Nibble")), A.Renamed("v", A.Bytewise(A.VarInt)), A.Renamed("b", A.Alias("Nibble")))), b"\x10\x52", b"\x10\x50", {"a": 1, "v": 5, "b": 2}, {"a": 1, "v": 5})):
+                bc = campaign.realizable(bp)
+                if bc is None:
+                    continue
+                i1, _ = camp.parse(bp, bc, goodd, 0, {})
+                i2, _ = camp.parse(bp, bc, badd, 0, {})
+                i3, _ = camp.parse(bp, bc, goodd, 0, {})
+                j1, _ = camp.build(bp, bc, goodv, b"", {})
+                j2, _ = camp.build(bp, bc, badv, b"", {})
+                j3, _ = camp.build(bp, bc, goodv, b"", {})
+                i4, _ = camp.parse(bp, bc, goodd, 0, {})
+                camp.sh.session("C17.pure", [i1, i3]); camp.sh.session("C17.pure", [j1, j3]); camp.sh.session("C17.pure", [i1, i4])
+                nt += 1
             # ---- signed and unsigned bit fields of the same narrow width: what one accepted says nothing about the other
             for w in (3, 4, 7):
                 sp = A.BitStruct(A.Renamed("a", A.BitsInteger(w, signed=True)), A.Renamed("b", A.BitsInteger(8 - w)))
